@@ -150,14 +150,20 @@ func findImport(pkg *packages.Package, name string) *types.Package {
 		}
 		return nil
 	}
-	// file-level import aliases
+	// the name as the package's own files see it (alias, or the imported package's name)
 	for _, f := range pkg.Syntax {
 		for _, is := range f.Imports {
-			if is.Name != nil && is.Name.Name == name {
-				path, _ := strconv.Unquote(is.Path.Value)
-				if ip, ok := pkg.Imports[path]; ok {
-					return ip.Types
-				}
+			path, _ := strconv.Unquote(is.Path.Value)
+			ip, ok := pkg.Imports[path]
+			if !ok || ip.Types == nil {
+				continue
+			}
+			local := ip.Types.Name()
+			if is.Name != nil {
+				local = is.Name.Name
+			}
+			if local == name {
+				return ip.Types
 			}
 		}
 	}
